@@ -142,7 +142,7 @@ def run(ctx):
             mults = [int(rng.integers(1, 3)), int(rng.integers(1, 3)), int(rng.integers(1, 3))]
             mults[cut] = int(rng.integers(1, 4))
             kw = {}
-            variant = (si + cut) % 4
+            variant = int(rng.integers(0, 4))
             if variant == 1:
                 kw['even'] = True
             elif variant == 2:
@@ -172,15 +172,20 @@ def run(ctx):
             if eff[cut] >= 2:
                 j = int(rng.integers(1, eff[cut]))
                 a1, a2 = int(rng.integers(-8, 17)), int(rng.integers(-8, 17))
-                if si % 3 == 0:
-                    a1, a2 = [(8, 0), (0, 8), (8, 8)][(si // 3) % 3]
+                if rng.random() < .3:
+                    a1, a2 = [(8, 0), (0, 8), (8, 8)][int(rng.integers(0, 3))]
                 try:
                     base = fs.system
                     basepos = base.atoms.pos.copy()
-                    if not vac:
-                        fs.faultpos_rel = j / eff[cut]
+                    # the fault plane given box-relative or Cartesian (drawn): with vacuum the box origin along the cut is not zero
+                    want_cart = lo + width * j / eff[cut]
+                    if rng.random() < .6:
+                        fs.faultpos_rel = (want_cart - system.box.origin[cut]) / system.box.vects[cut, cut]
                     else:
-                        fs.faultpos_cart = lo + width * j / eff[cut]
+                        fs.faultpos_cart = want_cart
+                    if abs(fs.faultpos_cart - want_cart) > 1e-8 or abs(fs.faultpos_rel - (want_cart - system.box.origin[cut]) / system.box.vects[cut, cut]) > 1e-8:
+                        ctx.violation('fault plane position: relative and Cartesian values disagree', 'cart %r rel %r expected cart %r' % (fs.faultpos_cart, fs.faultpos_rel, want_cart),
+                                      {'ucell': name, 'hkl': hkl, 'cut': cutname, 'kw': sorted(kw)})
                     flt = fs.fault(a1=a1 / 8, a2=a2 / 8)
                     above = [bool(x) for x in fs.abovefault]
                     if not np.array_equal(base.atoms.pos, basepos):
